@@ -3,7 +3,7 @@
    code (insert 1919-1933, _insert's str / BeautifulSoup cases 1940-1951, append, extend,
    insert_before, insert_after, replace_with, wrap, unwrap, clear, decompose, smooth, .string=). *)
 From Coq Require Import List NArith Bool Arith.
-From BS Require Import Base.Sexp Model.Heap.
+From BS Require Import Base.Sexp Model.Heap Model.Iter.
 Import ListNotations.
 
 Record st := mkst { hp : heap; nxt : nat }.     (* ids 0 .. nxt-1 have been allocated *)
@@ -216,14 +216,10 @@ Definition op_unwrap (s : st) (self : nat) : res st :=
       end
   end.
 
-(* decompose(): extract, then wipe everything along the (now closed) element chain *)
-Fixpoint wipe_chain (fuel : nat) (h : heap) (e : option nat) : heap :=
-  match fuel, e with
-  | S f, Some x => let nxt_e := ne (h x) in wipe_chain f (set_dead h x) nxt_e
-  | _, _ => h
-  end.
+(* decompose(): extract, collect the element and its descendants (Tag.descendants), wipe them all *)
 Definition decompose_h (fuel : nat) (h : heap) (x : nat) : heap :=
-  let h := extract fuel h x in wipe_chain fuel h (Some x).
+  let h := extract fuel h x in
+  fold_left set_dead (x :: (if is_tag h x then descendants fuel h x else [])) h.
 Definition op_decompose (s : st) (x : nat) : res st :=
   Ok (with_heap s (decompose_h (fuel_of s) (hp s) x)).
 
